@@ -159,7 +159,7 @@ def install_visit(w):
                           "step_post": ["implies(not is_leaving and not in_array,"
                                         " keys_of_kind(keys, visitor_keys, parent))"]}},
                dyn_call_ghost=("edit_results", "is_edit"),
-               havoc_stmts=["values = {k: getattr(node, k) for k in node.keys} | dict(edits)",
+               havoc_stmts=["values = {k: getattr(node, k) for k in node.keys}",
                             "node = node.__class__(**values)"],
                waive=["IndexError from `node.pop(array_key)`", "IndexError from `node[array_key] = edit_value`",
                       "TypeError from `edit_key - edit_offset`",
